@@ -289,6 +289,9 @@ func (pa *progAnalysis) summary(g *ssa.Function) *progSum {
 	} else {
 		s.ok, s.needParam = true, need
 	}
+	if os.Getenv("IMVERIF_DEBUG") != "" {
+		fmt.Fprintf(os.Stderr, "progress summary %s: ok=%v need=%d why=%s\n", fnName(g), s.ok, s.needParam, s.why)
+	}
 	pa.memo[g] = s
 	return s
 }
